@@ -113,7 +113,7 @@ Print Assumptions noisy_full_waveform_is_noise_plus_sum.
 (* antenna system, linear front end, any lead-in time: the waveform is the front end applied
    to the sum of the received signals; the lead-in round trip is exact *)
 Theorem sys_full_waveform_is_sum : forall sc st ts,
-  noisy (ant_cfg sc) = false -> fe_taps sc = [] -> wf_window ts ->
+  noisy (ant_cfg sc) = false -> fe_taps sc = [] -> fe_shift sc = None -> wf_window ts ->
   fst (s_full_waveform sc st ts) = st /\
   sig_eq (snd (s_full_waveform sc st ts))
          (mkSig ts (map (fun t => sum_at (signals (ant st)) t * fe_scale sc) ts)).
@@ -122,7 +122,7 @@ Print Assumptions sys_full_waveform_is_sum.
 
 (* antenna system: each processed signal is the front end of the antenna signal on its grid *)
 Theorem sys_signal_is_front_end : forall sc s,
-  fe_taps sc = [] ->
+  fe_taps sc = [] -> fe_shift sc = None ->
   wf_window (s_times s) -> length (s_times s) = length (s_values s) ->
   sig_eq (sys_signal_of sc s) (front_end sc s).
 Proof. exact sys_signal_is_front_end_lemma. Qed.
@@ -162,7 +162,7 @@ Proof. exact sys_bookkeeping_lemma. Qed.
 Print Assumptions sys_bookkeeping.
 
 Theorem sys_all_waveforms_are_sums : forall sc h,
-  noisy (ant_cfg sc) = false -> invalidate (ant_cfg sc) = true -> fe_taps sc = [] ->
+  noisy (ant_cfg sc) = false -> invalidate (ant_cfg sc) = true -> fe_taps sc = [] -> fe_shift sc = None ->
   Forall (fun s => wf_window (s_times s)) (received h) ->
   Forall2 sig_eq (snd (s_all_waveforms sc (s_final sc s_init h)))
     (map (fun s => mkSig (s_times s) (map (fun t => sum_at (received h) t * fe_scale sc) (s_times s)))
@@ -191,7 +191,7 @@ Print Assumptions sys_clear_resets.
    the window:  y(t_j) = sum_m taps[m] * gain * S(t_j - m*dt).  This is where the dt-preservation of
    _calculate_lead_in_times matters. *)
 Theorem sys_fir_waveform : forall sc st ts c0 taps',
-  noisy (ant_cfg sc) = false -> fe_taps sc = c0 :: taps' ->
+  noisy (ant_cfg sc) = false -> fe_taps sc = c0 :: taps' -> fe_shift sc = None ->
   wf_window ts -> uniform ts ->
   (length (fe_taps sc) <= S (Z.to_nat (lead_in_n sc ts)))%nat ->
   let dt := t_second ts - t_first ts in
@@ -238,3 +238,19 @@ Theorem master_index_drawn : forall c h,
   index_drawn (noise_master (final c a_init h)) (noise_draws (final c a_init h)).
 Proof. exact index_drawn_history. Qed.
 Print Assumptions master_index_drawn.
+
+(* ---------------------------------------------------------------- front ends that re-stamp their output
+   gain followed by a cable delay, front_end(signal) = Signal(signal.times + D, gain*values): the output is not on
+   the grid the front end was given, and the final processed.with_times(times) must re-grid it.  When D is d
+   samples of the uniform window and the lead-in grid has at least d nodes, the system waveform over the window
+   is the front end applied to the sum of the received signals: gain * S(t_j - D). *)
+Theorem sys_delay_waveform : forall sc st ts D d,
+  noisy (ant_cfg sc) = false -> fe_taps sc = [] -> fe_shift sc = Some D ->
+  wf_window ts -> uniform ts ->
+  (d <= Z.to_nat (lead_in_n sc ts))%nat ->
+  D == nat_Q d * (t_second ts - t_first ts) ->
+  fst (s_full_waveform sc st ts) = st /\
+  sig_eq (snd (s_full_waveform sc st ts))
+         (mkSig ts (map (fun t => sum_at (signals (ant st)) (t - D) * fe_scale sc) ts)).
+Proof. exact sys_delay_waveform_lemma. Qed.
+Print Assumptions sys_delay_waveform.
